@@ -1,2 +1,188 @@
+//! `unsafe impl Send/Sync` and the field types of the containers, arenas and buckets.
+
+use crate::{lean, parse_file, toks};
 use std::path::Path;
-pub fn emit(_src: &Path, _out: &mut String) {}
+use syn::{GenericArgument, GenericParam, Item, PathArguments, Type, TypeParamBound, WherePredicate};
+
+fn tparam(p: &str) -> String {
+    match p {
+        "K" => ".K".into(),
+        "S" => ".S".into(),
+        o => format!("(.other {})", lean::s(o)),
+    }
+}
+
+fn tcon(name: &str) -> String {
+    match name {
+        "Rodeo" => ".rodeo".into(),
+        "ThreadedRodeo" => ".threadedRodeo".into(),
+        "RodeoReader" => ".reader".into(),
+        "RodeoResolver" => ".resolver".into(),
+        "Arena" => ".arena".into(),
+        "LockfreeArena" => ".lockfreeArena".into(),
+        "AnyArena" => ".anyArena".into(),
+        "Bucket" => ".bucket".into(),
+        "AtomicBucket" => ".atomicBucket".into(),
+        "AtomicBucketList" => ".atomicBucketList".into(),
+        "HashMap" | "StringMap" => ".hashMap".into(),
+        "DashMap" => ".dashMap".into(),
+        "Vec" => ".vec".into(),
+        "PhantomData" => ".phantomData".into(),
+        "NonNull" => ".nonNull".into(),
+        "AtomicUsize" => ".atomicUsize".into(),
+        "AtomicPtr" => ".atomicPtr".into(),
+        "NonZeroUsize" | "NonZeroU8" | "NonZeroU16" | "NonZeroU32" => ".nonZero".into(),
+        "usize" | "u8" | "u16" | "u32" | "u64" | "bool" => ".int".into(),
+        "str" => ".str".into(),
+        o => format!("(.other {})", lean::s(o)),
+    }
+}
+
+fn tye(t: &Type, params: &[String]) -> String {
+    match t {
+        Type::Reference(r) => format!("(.ref {})", tye(&r.elem, params)),
+        Type::Array(a) => format!("(.array {})", tye(&a.elem, params)),
+        Type::Tuple(t) if t.elems.is_empty() => "(.app .unit [])".into(),
+        Type::Paren(p) => tye(&p.elem, params),
+        Type::Group(g) => tye(&g.elem, params),
+        Type::Path(p) => {
+            let last = p.path.segments.last().unwrap();
+            let name = last.ident.to_string();
+            if p.path.segments.len() == 1 && params.contains(&name) {
+                return format!("(.param {})", tparam(&name));
+            }
+            // the alias `StringMap<K>` is `HashMap<K, (), ()>`
+            let mut args: Vec<String> = match &last.arguments {
+                PathArguments::AngleBracketed(a) => a
+                    .args
+                    .iter()
+                    .filter_map(|g| match g {
+                        GenericArgument::Type(t) => Some(tye(t, params)),
+                        _ => None,
+                    })
+                    .collect(),
+                _ => Vec::new(),
+            };
+            if name == "StringMap" {
+                args.push("(.app .unit [])".into());
+                args.push("(.app .unit [])".into());
+            }
+            if name == "Self" {
+                return format!("(.app (.other {}) [])", lean::s("Self"));
+            }
+            format!("(.app {} {})", tcon(&name), lean::list_inline(&args))
+        }
+        Type::Ptr(p) => format!("(.app .nonNull [{}])", tye(&p.elem, params)),
+        other => format!("(.app (.other {}) [])", lean::s(&toks(other))),
+    }
+}
+
+fn marker_of(bound: &TypeParamBound) -> Option<&'static str> {
+    if let TypeParamBound::Trait(t) = bound {
+        let n = t.path.segments.last()?.ident.to_string();
+        return match n.as_str() {
+            "Send" => Some(".send"),
+            "Sync" => Some(".sync"),
+            _ => None,
+        };
+    }
+    None
+}
+
+pub fn emit(src: &Path, out: &mut String) {
+    let files = [
+        "rodeo.rs", "threaded_rodeo.rs", "reader.rs", "resolver.rs", "arenas/mod.rs", "arenas/single_threaded.rs",
+        "arenas/lockfree.rs", "arenas/bucket.rs", "arenas/atomic_bucket.rs",
+    ];
+    let wanted = ["Rodeo", "ThreadedRodeo", "RodeoReader", "RodeoResolver", "Arena", "LockfreeArena", "AnyArena", "Bucket", "AtomicBucket", "AtomicBucketList"];
+    let mut impls = Vec::new();
+    let mut defs = Vec::new();
+    for f in files {
+        let path = src.join(f);
+        if !path.exists() {
+            continue;
+        }
+        let file = parse_file(&path);
+        for item in &file.items {
+            match item {
+                Item::Impl(imp) if imp.unsafety.is_some() => {
+                    let Some((neg, tr, _)) = &imp.trait_ else { continue };
+                    let tn = tr.segments.last().map(|s| s.ident.to_string()).unwrap_or_default();
+                    let marker = match tn.as_str() {
+                        "Send" => ".send",
+                        "Sync" => ".sync",
+                        _ => continue,
+                    };
+                    if neg.is_some() {
+                        continue;
+                    }
+                    let Type::Path(tp) = &*imp.self_ty else { continue };
+                    let last = tp.path.segments.last().unwrap();
+                    let name = last.ident.to_string();
+                    let params: Vec<String> = match &last.arguments {
+                        PathArguments::AngleBracketed(a) => a.args.iter().map(|g| toks(g)).collect(),
+                        _ => Vec::new(),
+                    };
+                    let mut bounds = Vec::new();
+                    for gp in &imp.generics.params {
+                        if let GenericParam::Type(t) = gp {
+                            for b in &t.bounds {
+                                if let Some(m) = marker_of(b) {
+                                    bounds.push(format!("({}, {})", tparam(&t.ident.to_string()), m));
+                                }
+                            }
+                        }
+                    }
+                    if let Some(w) = &imp.generics.where_clause {
+                        for pred in &w.predicates {
+                            if let WherePredicate::Type(pt) = pred {
+                                for b in &pt.bounds {
+                                    if let Some(m) = marker_of(b) {
+                                        bounds.push(format!("({}, {})", tparam(&toks(&pt.bounded_ty)), m));
+                                    }
+                                }
+                            }
+                        }
+                    }
+                    impls.push(format!(
+                        "{{ ty := {}, trait_ := {}, params := {}, bounds := {} }}",
+                        tcon(&name),
+                        marker,
+                        lean::list_inline(&params.iter().map(|p| tparam(p)).collect::<Vec<_>>()),
+                        lean::list_inline(&bounds)
+                    ));
+                }
+                Item::Struct(st) if wanted.contains(&st.ident.to_string().as_str()) => {
+                    let params: Vec<String> = st.generics.type_params().map(|t| t.ident.to_string()).collect();
+                    let fields: Vec<String> = st.fields.iter().map(|f| tye(&f.ty, &params)).collect();
+                    defs.push(format!(
+                        "{{ name := {}, params := {}, fields := {} }}",
+                        tcon(&st.ident.to_string()),
+                        lean::list_inline(&params.iter().map(|p| tparam(p)).collect::<Vec<_>>()),
+                        lean::list_inline(&fields)
+                    ));
+                }
+                Item::Enum(en) if wanted.contains(&en.ident.to_string().as_str()) => {
+                    let params: Vec<String> = en.generics.type_params().map(|t| t.ident.to_string()).collect();
+                    let mut fields = Vec::new();
+                    for v in &en.variants {
+                        for f in &v.fields {
+                            fields.push(tye(&f.ty, &params));
+                        }
+                    }
+                    defs.push(format!(
+                        "{{ name := {}, params := {}, fields := {} }}",
+                        tcon(&en.ident.to_string()),
+                        lean::list_inline(&params.iter().map(|p| tparam(p)).collect::<Vec<_>>()),
+                        lean::list_inline(&fields)
+                    ));
+                }
+                _ => {}
+            }
+        }
+    }
+    out.push_str("/-- Every manual `unsafe impl Send/Sync` of the containers, arenas and buckets. -/\n");
+    out.push_str(&format!("def markerImpls : List MarkerImpl := {}\n\n", lean::list(&impls)));
+    out.push_str("/-- Field types of the containers, arenas and buckets. -/\n");
+    out.push_str(&format!("def structDefs : List StructDef := {}\n\n", lean::list(&defs)));
+}
